@@ -414,6 +414,8 @@ type Clause struct {
 	Locs []Expr // for assigns
 	Line int
 	File string
+	Callee string // aftercall: callee name (suffix match)
+	With   string // aftercall: closure argument name
 }
 
 func (c *Clause) Hash() string { return shortHash(c.Kind + "|" + fmt.Sprint(c.Loop) + "|" + normSpace(c.Text)) }
@@ -552,7 +554,7 @@ func (db *SpecDB) ParseSpecFile(path, pkgPath string, trusted bool) error {
 		isHeader := false
 		switch word {
 		case "package", "func", "interface", "functype", "pure", "pred", "axiom", "lemma", "ghost", "sort", "constglobal",
-			"requires", "ensures", "assigns", "decreases", "loop", "inline", "abstracted", "bitprecise", "nooverflow", "panics-if", "trusted", "noalloc", "prune", "maxpaths", "timeout", "noinline", "nosafety":
+			"requires", "ensures", "assigns", "decreases", "loop", "after", "inline", "abstracted", "bitprecise", "nooverflow", "panics-if", "trusted", "noalloc", "prune", "maxpaths", "timeout", "noinline", "nosafety":
 			isHeader = true
 		}
 		if !isHeader || strings.HasPrefix(word, "requires[") {
@@ -709,6 +711,23 @@ func (db *SpecDB) ParseSpecFile(path, pkgPath string, trusted bool) error {
 			default:
 				return fmt.Errorf("%s:%d: bad loop clause %q", path, ln+1, w3)
 			}
+			cur.Clauses = append(cur.Clauses, lastClause)
+		case "after":
+			// after <callee> [with <closure>] assume <expr>
+			if cur == nil {
+				return fmt.Errorf("%s:%d: clause outside block", path, ln+1)
+			}
+			rest += " "
+			i := strings.Index(rest, " assume ")
+			if i < 0 {
+				return fmt.Errorf("%s:%d: after ... assume <expr>", path, ln+1)
+			}
+			head := strings.Fields(rest[:i])
+			cl := &Clause{Kind: "aftercall", Text: strings.TrimSpace(rest[i+8:]), Line: ln + 1, File: path, Callee: head[0]}
+			if len(head) >= 3 && head[1] == "with" {
+				cl.With = head[2]
+			}
+			lastClause = cl
 			cur.Clauses = append(cur.Clauses, lastClause)
 		case "inline", "abstracted", "bitprecise", "nooverflow", "trusted", "noalloc", "prune", "noinline", "nosafety":
 			if cur == nil {
